@@ -1,6 +1,7 @@
 package checks
 
 import (
+	"strings"
 	"testing"
 
 	"verif/mc/h"
@@ -9,6 +10,15 @@ import (
 
 func TestC14(t *testing.T) {
 	run := h.NewRun("C14", "model_checking")
+	if rp := replayFile(); rp != nil && strings.Contains(string(rp.raw["replay"]), "lattice_case") {
+		var x struct {
+			Case c14Case `json:"lattice_case"`
+		}
+		rp.decode(&x)
+		c14Eval(t, run, x.Case)
+		exit(run.Finish("replay"))
+	}
+	c14Lattice(t, run)
 	b := 1
 	n := []string{"n1", "n2"}
 	if h.Thorough() {
@@ -48,5 +58,6 @@ func TestC14(t *testing.T) {
 		run.Count("antecedent:C14/quiescent", 1)
 	})
 	requireAntecedents(run, "C14/quiescent")
-	exit(run.Finish("BFS of S1/S2/S3 with pod/node/annotation deviations: replica-set counter ordering after every full sync, ExtendedDaemonSet status against the reference status function after every R_eds, and the quiescent-state clause at the closure fixpoint of sampled reachable states; non-trivial = scenarios"))
+	run.Cov["evaluations"] = run.Counter("transitions") + run.Counter("lattice_reconciles") + run.Counter("closures")
+	exit(run.Finish("status-function lattice: one real R_eds on every combination of canary strategy x recorded active replica set {A, B, empty, vanished} x third replica set x status tuples of up to three replica sets x Canary-Paused / Canary-Failed conditions x canary-paused / rolling-update-paused / rollout-frozen / canary-valid annotations x previous status.canary x duration elapsed, judged by the reference status function; BFS of S1/S2/S3 with pod/node/annotation deviations: replica-set counter ordering after every full sync, ExtendedDaemonSet status against the reference status function after every R_eds, and the quiescent-state clause at the closure fixpoint of sampled reachable states; non-trivial = scenarios"))
 }
